@@ -105,6 +105,16 @@ type FakeHAProxy struct {
 	mu       sync.Mutex
 	Requests []string // "METHOD path body"
 	failWith int      // != 0: answer every request with this status (the management API is down)
+	failOnce string   // != "": the next request whose "METHOD path" contains this gets a 500 (logged as "FAILED ...")
+	failSkip int      // ... after letting this many matching requests through
+}
+
+// FailOnce makes the management API refuse (500) one request whose "METHOD path" contains match, after
+// letting skip matching requests through. The refused request is logged with the prefix "FAILED ".
+func (f *FakeHAProxy) FailOnce(match string, skip int) {
+	f.mu.Lock()
+	f.failOnce, f.failSkip = match, skip
+	f.mu.Unlock()
 }
 
 // FailWith makes the management API answer every request with status (0 = healthy again).
@@ -125,8 +135,18 @@ func StartFakeHAProxy() *FakeHAProxy {
 func (f *FakeHAProxy) handler(w http.ResponseWriter, r *http.Request) {
 	body, _ := io.ReadAll(r.Body)
 	f.mu.Lock()
-	f.Requests = append(f.Requests, r.Method+" "+r.URL.Path+" "+string(body))
+	line := r.Method + " " + r.URL.Path + " " + string(body)
 	fail := f.failWith
+	if f.failOnce != "" && strings.Contains(r.Method+" "+r.URL.Path, f.failOnce) {
+		if f.failSkip > 0 {
+			f.failSkip--
+		} else {
+			f.failOnce = ""
+			fail = 500
+			line = "FAILED " + line
+		}
+	}
+	f.Requests = append(f.Requests, line)
 	f.mu.Unlock()
 	if fail != 0 {
 		w.WriteHeader(fail)
